@@ -289,8 +289,25 @@ class Explorer:
                         x_ = env.get(a_) if a_ is not None else None
                         if isinstance(x_, tuple) and x_[0] == "variant":
                             v = ("variant", "Continue" if x_[1] in ("Some", "Ok") else "Break")
+                    if v is None and fn_ is not None and fn_.get("path", "").endswith("FromResidual::from_residual"):
+                        # `?` on its failure path builds the Err / None of the enclosing function's type
+                        ty_ = str(d.get("ty") or self.b.locals[d["local"]].get("ty") or "")
+                        if "result::Result" in ty_:
+                            v = ("variant", "Err")
+                        elif "option::Option" in ty_:
+                            v = ("variant", "None")
                     if v is None:
-                        v = self.eval_term(pnorm(self.view.T.call_term(bi)))
+                        ct_ = pnorm(self.view.T.call_term(bi))
+                        v = self.eval_term(ct_)
+                        if v is None and self.some_atoms:
+                            # an Option/Result-valued call whose Some/Ok-ness follows from the assumptions is tracked by variant
+                            s_ = self.is_some_term(ct_)
+                            ty_ = str(d.get("ty") or self.b.locals[d["local"]].get("ty") or "")
+                            if s_ is not None:
+                                if "result::Result" in ty_:
+                                    v = ("variant", "Ok" if s_ else "Err")
+                                elif "option::Option" in ty_:
+                                    v = ("variant", "Some" if s_ else "None")
                     if v is None:
                         env.pop(d["local"], None)
                     else:
@@ -425,7 +442,7 @@ class _Unfoldable(Exception):
     pass
 
 
-def fold_fn(body, arg, adts=None, fuel=400):
+def fold_fn(body, arg, adts=None, fuel=400, lib=None, depth=0):
     """Value of a small total function of one scalar/fieldless-enum parameter on the abstract input `arg`, by constant
     folding its MIR (no code is run): arg is an int, or ('variant', name, discr) for a fieldless enum.  Supported: copies,
     constants, comparisons, bit/arith ops on ints, IntToInt casts, discriminant reads, unit-variant aggregates, switches.
@@ -507,6 +524,21 @@ def fold_fn(body, arg, adts=None, fuel=400):
                     return ("variant", r[1])
                 return r
             if t["k"] == "goto":
+                bi = t["target"]
+            elif t["k"] == "call" and lib is not None and depth < 4 and "fn" in t.get("func", {}) and len(t["args"]) == 1 and \
+                    t.get("target") is not None and not t["dest"]["proj"]:
+                # a crate-local one-argument helper (`Self::from_code(src)`): fold it too
+                cal = core.Callee(t["func"]["fn"])
+                cb = lib.bodies.get(cal.body_path) or getattr(lib, "helper_bodies", {}).get(cal.body_path)
+                if cb is None or cb is body:
+                    raise _Unfoldable()
+                a0 = operand(t["args"][0])
+                if isinstance(a0, tuple) and a0[0] == "variant" and len(a0) == 2:
+                    raise _Unfoldable()
+                r = fold_fn(cb, a0, adts, fuel, lib, depth + 1)
+                if r is None:
+                    raise _Unfoldable()
+                env[t["dest"]["local"]] = r
                 bi = t["target"]
             elif t["k"] == "switch":
                 x = as_int(operand(t["discr"]))
@@ -604,6 +636,11 @@ def kind_atoms(lib, mk_ok, kind):
     for b in lib.bodies.values():
         if b.j.get("impl_adt") == "MatchKind" and b.j.get("impl_trait") is None and not b.is_closure and b.arg_count == 1:
             val = fold_fn(b, ("variant", kind, k))
+            if val not in (0, 1):
+                # predicates written with `==` on the enum (PartialEq::eq calls) or in terms of one another: KIND-PRED's folder
+                from .acc import _eval_pred
+                r_ = _eval_pred(lib, b, kind, variants)
+                val = None if r_ is None else int(bool(r_))
             if val in (0, 1):
                 def callp(t, path=b.path):
                     return t[0] == "call" and isinstance(t[1], str) and t[1].split("@")[0] == path.replace("<", "").replace(">", "") and len(t[2]) == 1 and mk_ok(t[2][0])
